@@ -134,6 +134,16 @@ CLAIMED["C11"] = (
     "DESIGN.md 3 C11",
 )
 
+CLAIMED["C12"] = (
+    XH + "; carrier fields keep the compared values symbolic through Record.__eq__/_pack/GroupedRecord._pack and the ignored-fields configuration",
+    "Equality is decided for all carrier values: a == b iff same descriptor and all non-ignored values equal, symmetric, reflexive, != its negation, never raising, for plain "
+    "records under every ignored-field subset, nested records, lists of up to two elements and grouped records of 0..2 members; a scoped override of the ignored-fields "
+    "configuration is undone for every outer configuration (non-empty ones included), nesting and raising body. Hashing realises values inside C (hash()), so the hash contract is "
+    "explored for counterexamples only on symbolic values and decided path-exhaustively over a table of 24 field types (copy, one-field variation, grouped and nested forms).",
+    "Trusted: Python's hash on the packed values. Outside: NaN (rebuilt copies are unequal by Python's ==), value contents beyond the type table.",
+    "DESIGN.md 3 C12",
+)
+
 NOT_APPLICABLE = {
     "C13": "every operation the property constrains (datetime construction/arithmetic, fromisoformat, zoneinfo, fastavro/sqlite3 conversions) is C code; "
     "CrossHair realises each datetime component at the C constructor and the repo-side logic is two value-free ifs, so no value-level case would be decided by the solver (DESIGN.md 6)",
